@@ -141,9 +141,14 @@ C08_TEMPLATES = [
     dict(name="nested_modules",
          files={"main.fcp": V3 + "mod a.b;\nstruct N4 { x @0: R1, }\n",
                 "a/b.fcp": V3 + "enum N1 { A = 0, }\nmod c;\nstruct N3 { y @0: R2, }\n",
-                "a/c.fcp": V3 + "struct N2 { z @0: R3, }\n"},
-         decls={"N1": "enum", "N2": "struct", "N3": "struct", "N4": "struct"},
-         refs={"R1": (["N1", "N2", "N3"], "N4", "x"), "R2": (["N1", "N2"], "N3", "y"), "R3": ([], "N2", "z")}),
+                "a/c.fcp": V3 + "enum N5 { A = 0, }\nstruct N2 { z @0: R3, }\n"},
+         decls={"N1": "enum", "N2": "struct", "N3": "struct", "N4": "struct", "N5": "enum"},
+         refs={"R1": (["N1", "N2", "N3", "N5"], "N4", "x"), "R2": (["N1", "N2", "N5"], "N3", "y"), "R3": (["N5"], "N2", "z")}),
+    dict(name="module_cannot_see_importer",
+         files={"main.fcp": V3 + "enum N1 { A = 0, }\nmod m;\nstruct N3 { y @0: R2, }\n",
+                "m.fcp": V3 + "struct N2 { z @0: R1, }\n"},
+         decls={"N1": "enum", "N2": "struct", "N3": "struct"},
+         refs={"R1": ([], "N2", "z"), "R2": (["N1", "N2"], "N3", "y")}),
 ]
 
 
@@ -239,6 +244,10 @@ def c08_case(args):
                        what=f"error does not name the unresolved type and its struct: {text[:160]} ({tpl['name']})")
         res["vacuity"] = {"ok_paths": sum(1 for k, o, _ in paths if k == "ret" and o[0].is_ok()),
                           "err_paths": sum(1 for k, o, _ in paths if k == "ret" and not o[0].is_ok())}
+        if all(vis for vis, _, _ in refs.values()) and res["vacuity"]["ok_paths"] == 0:
+            res["inconclusive"].append(f"{tpl['name']}: vacuous template - no accepting path although every reference can resolve")
+        if res["vacuity"]["err_paths"] == 0:
+            res["inconclusive"].append(f"{tpl['name']}: vacuous template - no rejecting path")
     except EngineLimit as e:
         res["inconclusive"].append(f"{tpl['name']}: engine limit: {e}")
     finish_engine(res, eng)
